@@ -293,15 +293,45 @@ def _init_worker(mod):
     _CHECK = importlib.import_module(mod).CHECK
 
 
+class _CaseAlarm(BaseException):
+    """raised by the per-case alarm inside a worker (BaseException: not swallowed by `except Exception`)"""
+
+
+CASE_ALARM = int(os.environ.get("VERIF_CASE_ALARM", "120"))
+
+
+def _alarm(signum, frame):
+    raise _CaseAlarm()
+
+
 def _do_case(args):
     i, case = args
     t0 = time.time()
+    import signal
+    armed = False
+    try:
+        signal.signal(signal.SIGALRM, _alarm)
+        signal.setitimer(signal.ITIMER_REAL, CASE_ALARM)
+        armed = True
+    except Exception:      # not in a main thread / no SIGALRM: fall back to the pool time-out
+        pass
     try:
         r = _CHECK.run_case(case)
+    except _CaseAlarm:
+        # a routine that does not terminate on an input the property covers is a failure of the property
+        # (reported with this case as the replay), not an infrastructure problem
+        r = {"lines": [], "impl": [], "nontrivial": True, "tags": ["did-not-terminate"], "mutated": None,
+             "oracle": f"the routines under test did not terminate within {CASE_ALARM} s on this case"}
     except Exception:  # harness bug or unexpected impl exception not caught by module
         r = {"lines": [], "impl": [], "oracle": None, "nontrivial": False,
              "tags": ["harness-exception"], "mutated": None,
              "error": traceback.format_exc()[-3000:]}
+    finally:
+        if armed:
+            try:
+                signal.setitimer(signal.ITIMER_REAL, 0)
+            except Exception:
+                pass
     r.setdefault("lines", []); r.setdefault("impl", []); r.setdefault("oracle", None)
     r.setdefault("nontrivial", True); r.setdefault("tags", []); r.setdefault("mutated", None)
     r["dt"] = time.time() - t0
